@@ -247,7 +247,7 @@ def rule_order(repo: Repo, rid: str = "C12.order") -> RuleResult:
             # (b) node construction with two children derived from children of another node / from the AST list
             if callee_name(call) == "AnyNode":
                 valkw = [k.value for k in call.keywords if k.arg == "value"]
-                if valkw and isinstance(valkw[0], ast.Constant):
+                if valkw and (isinstance(valkw[0], ast.Constant) or _all_constant(p, valkw[0])):
                     continue  # a new operator node (algebraic rewriting), not a copy / translation of an existing node
                 for k in call.keywords:
                     if k.arg != "children":
@@ -316,6 +316,14 @@ def rule_order(repo: Repo, rid: str = "C12.order") -> RuleResult:
         raise AnalysisError(f"rule {rid}: no site of kind {sorted(need - seen_kinds)} found -- the anchors this rule needs have vanished")
     r.require_sites(6)
     return r
+
+
+def _all_constant(p, e: ast.AST) -> bool:
+    try:
+        tr = p.trace(e)
+    except KeyError:
+        return False
+    return bool(tr) and all(len(x) == 1 and x[0].startswith("const:") for x in tr)
 
 
 def _two_elements(p, e: ast.AST):
